@@ -20,7 +20,20 @@ MANIFEST_TEXT = ("Lean 4 theorems, for every lane count S, every scalar type and
                  "unsigned,bool,complex, nested, over-aligned, 49 lane-type x scalar-type pairs), a minimal SIMD type living on the defaults, "
                  "and FieldMatrix/FieldVector/DynamicMatrix of LoopSIMD<double,S>, LoopSIMD<float,4> and LoopSIMD<LoopSIMD<double,2>,2> in "
                  "both configurations (two translation units) against the scalar operation per lane by bit pattern and against the Lean "
-                 "model (bit-exact, Float/Float32 = IEEE double/single).")
+                 "model (bit-exact, Float/Float32 = IEEE double/single). ROUND 4: the control decisions of luDecomposition (bounds and comparison of the "
+                 "per-lane pivot search, operand order of its two cond calls, the update of nonsingularLanes, the reductions that throw / "
+                 "return, the elimination bounds), of ElimDet::swap / ElimPivot::swap, the throwEarly argument of the three callers and the "
+                 "masking of the determinant's singular lanes are a table (Gen.luCtl) re-translated from densematrix.hh on every run; the "
+                 "straight-line arithmetic around them (elimination step, lane-wise row swap, Elim<V>, backsolve, the triangular solves and "
+                 "the lane-wise un-permutation of invert) must keep the form the model follows or the translator fails; the driver runs the "
+                 "algorithms FROM the table (determinantT/solveT/invertT), theorems: the table is the canonical one (lu_control_shape), the "
+                 "table-driven algorithms are the hand-written ones (translated_control_refines), hence lane-wise (det/solve/invert_translated_*), "
+                 "and the LU factors, the recorded pivot rows and the mask themselves are lane-wise (lu_factors_lanewise, "
+                 "lu_factors_lanewise_noThrow). The eleven matrix-vector kernels mv..usmhv (umhv/mmhv/usmhv were never executed before) are "
+                 "translated into loop-nest shapes (any test / reduction / early return in a kernel is outside the grammar), executed from "
+                 "the shapes and proved lane-wise for EVERY shape of the grammar (kernels_translated_lanewise); the vector-space operations "
+                 "of DenseMatrix (+=, -=, *=, /=, unary -, axpy with per-lane factors) are modelled, run and proved lane-wise "
+                 "(matrix_space_ops_lanewise).")
 MANIFEST_NOTE = ("Trusted: Lean kernel (+propext/Classical.choice/Quot.sound), tr_c09.py, fidelity of the hand-written dense-matrix "
                  "model (differential runs only), Lean's Float/Float32 = IEEE binary64/32 for + - * / < == fabs sqrt and int<->float "
                  "conversions, g++/libm/ASan/UBSan. cmath functions are uninterpreted in the model (their table travels on the op line); "
@@ -35,7 +48,7 @@ MANIFEST_NOTE = ("Trusted: Lean kernel (+propext/Classical.choice/Quot.sound), t
                  "model describes the repaired code. -O0 and a reduced UBSan set (without null/alignment/vptr/pointer-overflow/object-size) "
                  "are used for the harness because ~55 vector types x all operators + ~75 matrix/vector types take > 2 min to compile at -O1 "
                  "with all sanitizers.")
-TECHNIQUE = "Lean 4 proof over translated loop shapes (incl. declared operand types) + SimdLike-generic LU/kernel model (loop and nested instances proved lawful, checked configuration executed from the translated test table); translator for operator tables, defaults.hh, type functions and the densematrix.hh singularity tests; differential correspondence in two build configurations with per-lane scalar oracle (bitwise)"
+TECHNIQUE = "Lean 4 proof over translated loop shapes (incl. declared operand types) + SimdLike-generic LU/kernel model (loop and nested instances proved lawful; LU control decisions, matrix-vector kernel shapes and the checked configuration's tests executed from tables translated from densematrix.hh, refinement to the hand-written model proved); translator for operator tables, defaults.hh, type functions, the densematrix.hh singularity tests, the luDecomposition control skeleton + functors + callers and the eleven kernels; differential correspondence in two build configurations with per-lane scalar oracle (bitwise)"
 TRANSLATORS = [tr_c09.translate]
 HARNESS = dict(
     # cxx_c09_chk.cc: the same headers once more with DUNE_FMatrix_WITH_CHECKING defined (library renamed to another namespace)
@@ -60,12 +73,18 @@ RULE = ("cases: operator/function x scalar type {f32,f64,i32,i64,i16,u32,bool,co
         "permutation, zero column, duplicate/dependent rows, ties, powers of two, zero) so lanes need different pivot rows and some are "
         "singular; the same solve/invert in the configuration DUNE_FMatrix_WITH_CHECKING (matc: n=1..4, absolute_limit in {1e-80,1e-6,0.5,1,2.5,8} "
         "set per case, one lane on the other side of the test); rectangular kernels mv/mtv/umv/umtv/mmv/mmtv/usmv/usmtv, left/rightmultiply, "
-        "matrix and vector norms, dot, axpy; distinct = distinct op lines; non-trivial = the per-lane scalar oracle compared a result")
+        "matrix and vector norms, dot, axpy; (round 4) the hermitian kernels umhv/mmhv/usmhv and the vector-space operations A+=B, A-=B, A*=k, "
+        "A/=k, -A, A.axpy(k,B) on rectangular matrices with a per-lane factor k; distinct = distinct op lines; non-trivial = the per-lane scalar oracle compared a result")
 ASSUMPTIONS = [
     "the loop shapes (incl. the declared type of every scalar parameter), operator lists, the scalar cond/reductions, the defaults of "
     "defaults.hh, Scalar/Rebind/LaneCount and the singularity tests of the checked configuration (densematrix.hh) are regenerated "
-    "from the source by tools/translators/tr_c09.py; the rest of the dense-matrix model lean/DuneVerif/Model/C09LU.lean + C09X.lean is "
-    "hand-written, its fidelity rests on this differential run",
+    "from the source by tools/translators/tr_c09.py; (round 4) so are the control decisions of luDecomposition / ElimDet / ElimPivot / the "
+    "LU branches of determinant, solve, invert (Gen.luCtl; the straight-line arithmetic between them is pattern-checked: identifiers, "
+    "increment style, braces, `a -= f*b` vs `a = a - f*b`, commuted factors, swap operand order, `!allTrue` vs `anyFalse`, `i != j` with "
+    "exchanged cond operands are free, anything else makes the translator fail) and the loop-nest shapes of the eleven matrix-vector "
+    "kernels (Gen.kernel_*); hand-written and resting on the differential run: the closed forms n <= 3, left/rightmultiply, the norms, "
+    "the vector-space operations (lean/DuneVerif/Model/C09LU.lean, C09X.lean, C09K.lean)",
+    "conjugateComplex is the identity on the lanes the harness uses (real scalar types); the kernel theorem holds for every scalar function",
     "Lean Float/Float32 arithmetic (+ - * / < == abs sqrt) is IEEE binary64/binary32 (checked bit for bit against the C++ results in every run); "
     "the compiler does not contract a*b+c into fma (no -mfma / -ffast-math in the harness build)",
     "NaN payloads and signs are canonicalised on both sides; integer operands are restricted to defined behaviour (no signed overflow, "
